@@ -1016,11 +1016,49 @@ func runC21(cfg *hx.RunCfg) (*hx.Result, error) {
 			return nil, err
 		}
 	}
+	if cfg.Tier == "thorough" {
+		// exhaustive small scope: every sequence of up to 4 single-id calls (add / update / remove) over three ids
+		// of one block, two of them with the same ideal slot and the third sitting in the slot scanned next
+		kinds := []string{"add", "update", "remove"}
+		var rec func(prefix []int)
+		var ferr error
+		rec = func(prefix []int) {
+			if ferr != nil {
+				return
+			}
+			if len(prefix) > 0 {
+				b := newBuilder(r, fmt.Sprintf("exhaustive-%v", prefix), 2)
+				ids := []int{b.id(1, 5, 1), b.id(1, 5, 2), b.id(1, 0, 3)}
+				for _, c := range prefix {
+					k, i := kinds[c/3], ids[c%3]
+					if k == "remove" {
+						b.remove(i)
+					} else {
+						b.write(k, i)
+					}
+				}
+				b.getAll()
+				serial++
+				res.Count("exhaustive")
+				ferr = runHistory(res, workRoot, serial, b.h, nil)
+			}
+			if len(prefix) == 4 {
+				return
+			}
+			for c := 0; c < 9; c++ {
+				rec(append(append([]int(nil), prefix...), c))
+			}
+		}
+		rec(nil)
+		if ferr != nil {
+			return nil, ferr
+		}
+	}
 	n := cfg.N
 	if n == 0 {
-		n = 70
+		n = 110
 		if cfg.Tier == "thorough" {
-			n = 3000
+			n = 1000
 		}
 	}
 	for i := 0; i < n; i++ {
